@@ -526,7 +526,7 @@ def case(ctx, i, rng):
                 v, fl = value(o.obj, w)
                 vals.append(v)
                 flags |= fl
-        except (Unsupported, Ambiguous, StructureMismatch, IllConditioned) as ex:
+        except (Unsupported, Ambiguous, StructureMismatch, IllConditioned, RecursionError, OverflowError) as ex:
             verdicts.append("skipped")
             ctx.covered("skip_reasons", type(ex).__name__)
             continue
